@@ -59,15 +59,12 @@ func (m *TorrentMeta) Serialize() ([]byte, error) {
 
 // Deserialize loads b into m.
 func (m *TorrentMeta) Deserialize(b []byte) error {
-	if len(b) == 0 {
-		// The file is created and written in two steps, so a crash in between leaves it empty.
-		// An empty file holds no metainfo: report it as missing, so that callers regenerate it
-		// instead of failing on it forever.
-		return os.ErrNotExist
-	}
 	mi, err := core.DeserializeMetaInfo(b)
 	if err != nil {
-		return err
+		// The file is created, resized and written in separate steps, so a crash in between leaves
+		// it empty or zero-filled. A file that holds no metainfo is reported as missing, so that
+		// callers regenerate it instead of failing on it forever.
+		return os.ErrNotExist
 	}
 	m.MetaInfo = mi
 	return nil
